@@ -48,3 +48,31 @@ def _labware_op(lw, name, wells, volumes, label):
                       and all(a[0] == b[0] and np.array_equal(a[1], b[1]) for a, b in zip(hist, hist_before)))
     res["snapshot"] = lw._history[-1] is not lw._volumes
     return res
+
+
+def _make_labware(name, rows, columns, min_volume, max_volume, initial_volumes, virtual_rows):
+    import numpy as np
+    from robotools import Labware
+
+    lw = Labware(name, rows, columns, min_volume=min_volume, max_volume=max_volume, initial_volumes=initial_volumes, virtual_rows=virtual_rows)
+    nr = virtual_rows if virtual_rows is not None else rows
+    letters = "ABCDEFGHIJKLMNOPQRSTUVWXYZ"
+    ids = [[f"{letters[r]}{c + 1:02d}" for c in range(columns)] for r in range(nr)]
+    if initial_volumes is None:
+        iv = np.zeros((rows, columns))
+    elif np.ndim(initial_volumes) == 0:
+        iv = np.full((rows, columns), float(initial_volumes))
+    else:
+        iv = np.array(initial_volumes, dtype=float).flatten().reshape((rows, columns))
+    res = {}
+    res["grid-ids"] = len(lw.row_ids) == nr and list(lw.column_ids) == list(range(1, columns + 1))
+    res["wells-array"] = lw.wells.shape == (nr, columns) and lw.wells.tolist() == ids
+    res["volumes-layout"] = lw.volumes.shape == (rows, columns) and bool(np.array_equal(lw.volumes, iv))
+    res["index-map"] = all(lw.indices[ids[r][c]] == ((0 if virtual_rows is not None else r), c) for r in range(nr) for c in range(columns))
+    res["index-map-nothing-else"] = set(lw.indices) == {w for row in ids for w in row}
+    res["positions"] = all(lw._positions[ids[r][c]] == 1 + c * nr + r for r in range(nr) for c in range(columns))
+    res["limits"] = 0 <= lw.min_volume < lw.max_volume and bool(np.all((lw.volumes >= 0) & (lw.volumes <= lw.max_volume) & np.isfinite(lw.volumes)))
+    res["history"] = len(lw.history) == 1 and lw.history[0][0] == "initial" and bool(np.array_equal(lw.history[0][1], lw.volumes)) and lw._history[0] is not lw._volumes
+    res["own-volume-array"] = not (isinstance(initial_volumes, np.ndarray) and np.shares_memory(lw._volumes, initial_volumes))
+    res["attributes"] = lw.name == name and lw.min_volume == min_volume and lw.max_volume == max_volume and lw.virtual_rows == virtual_rows
+    return res
